@@ -148,7 +148,8 @@ const skipRegexYAML = `
         - ^\/hook\/[a-z]+$
         - \.(css|js|png)$
         - ^/api/v[0-9]+/.*/status$
-        - healthz`
+        - healthz
+        - ^/open/[^/]+$`
 
 // NewWorld builds the fixture.
 func NewWorld() (*World, error) {
@@ -208,11 +209,14 @@ func pick(r *rand.Rand, xs ...string) string { return xs[r.Intn(len(xs))] }
 // deadline for `rem` remaining units (-1 = expired).
 func deadline(now time.Time, rem int, r *rand.Rand) time.Time {
 	if rem < 0 {
-		switch r.Intn(3) {
+		switch r.Intn(4) {
 		case 0:
 			return time.Time{}
 		case 1:
 			return now.Add(-world.U / 2)
+		case 2:
+			// only just: "expired" has no tolerance, not a minute and not a second
+			return now.Add(-time.Duration(40+r.Intn(2900)) * time.Millisecond)
 		default:
 			return now.Add(-time.Duration(1+r.Intn(50)) * world.U)
 		}
@@ -377,10 +381,12 @@ func concreteReq(q Req, r *rand.Rand) (method, target string, hdr http.Header) {
 		switch q.Path {
 		case "skip":
 			target = pick(r, "/public/", "/public/a/b?x=1", "/%70ublic/y", "/hook/abc", "/public/%2e%2e/secret", "/public/oauth2/auth",
-				"/static/site.css", "/a/b/app.js?v=3", "/api/v2/items/status", "/x/healthz/y", "/healthz")
+				"/static/site.css", "/a/b/app.js?v=3", "/api/v2/items/status", "/x/healthz/y", "/healthz", "/open/file", "/open/%66ile?x=/", "/hook/%61bc")
 		case "near":
 			target = pick(r, "/Public/x", "/a/public/", "/public", "/?/public/", "/private?next=/public/", "/hook/abc/", "/hook/ABC", "/xhook/abc", "/%2Fpublic/", "/secret#/public/", "/hook/", "/publicx",
-				"/admin/export?theme=site.css", "/api/v1/secrets?x=/status", "/admin?probe=healthz", "/site.css/secret", "/api/v1/status/secrets", "/admin?x=.js", "/data?file=a.png")
+				"/admin/export?theme=site.css", "/api/v1/secrets?x=/status", "/admin?probe=healthz", "/site.css/secret", "/api/v1/status/secrets", "/admin?x=.js", "/data?file=a.png",
+				// patterns are about the DECODED path: an encoded slash is a slash
+				"/open/..%2Fadmin", "/open/x%2Fy", "/open/a%2F..%2F..%2Fsecret", "/open/%2e%2e%2fadmin", "/hook/abc%2F", "/open/")
 		default:
 			target = pick(r, "/", "/secret/data", "/index.html?a=b", "/api/v1/items/7", "/oauth2/other", "/ping/x", "/robots.txtx")
 		}
